@@ -1,4 +1,4 @@
-import FxVerif.Model.Flows
+import FxVerif.Model.C04Sig
 /-!
 # C04 model — bridge ledger: deposits, outgoing pool / batches / bridge calls, refunds, conversions
 
@@ -25,6 +25,8 @@ structure Cfg where
   executed out minus what already came back.  `false` = no restriction (the theorems that do not need it hold for
   both values). -/
   envBound : Bool := false
+  /-- the group has an IBC voucher registered as one more alias of its base denomination (`Model/C04Ibc.lean`) -/
+  ibcAlias : Nat → Bool := fun _ => false
 
 structure PoolTx where
   id : Nat
